@@ -2,22 +2,20 @@ import sys, time
 sys.path.insert(0, '/verif')
 from pyvc.extract import Repo
 from pyvc.engine import Engine
-from pyvc import spec as S, cmdspec
-import contracts.eems_common, contracts.eems_basic as EB, contracts.eems_fuzzy
+from pyvc import spec as S, cmdspec, registry
 repo = Repo()
-names = sys.argv[1:] or ["AMinusB", "Sum"]
+SPECS, classes = registry.load(repo)
+names = sys.argv[1:] or sorted(SPECS)
 for n in names:
-    ci = None
-    for m in ("mpilot/libraries/eems/basic.py", "mpilot/libraries/eems/fuzzy.py"):
-        if n in repo.modules[m].classes: ci = repo.modules[m].classes[n]
+    ci = classes[n]
     eng = Engine(repo, S.CONTRACTS, S.LOOPS)
     t0 = time.time()
     try:
-        res = cmdspec.verify_execute(eng, ci, EB.SPECS[n])
+        res = cmdspec.verify_execute(eng, ci, SPECS[n])
     except Exception as e:
         import traceback; traceback.print_exc()
         res = eng.results
-    print("==", n, "%.2fs" % (time.time() - t0))
-    for r in res:
-        flag = "ok " if r["status"] == "unsat" else "FAIL(%s)" % r["status"]
-        print("  ", flag, r["name"], r.get("trail", "")[-4:] if r["status"] != "unsat" else "")
+    bad = [r for r in res if r["status"] != "unsat"]
+    print("==", n, "%.2fs" % (time.time() - t0), "%d VCs, %d not discharged" % (len(res), len(bad)))
+    for r in bad:
+        print("   FAIL(%s)" % r["status"], r["name"], r.get("trail", "")[-4:])
